@@ -16,8 +16,10 @@ import (
 // VerifNewBridgeSyncWithDB is VerifNewBridgeSync on a caller-supplied database handle (opened by
 // the harness through a fault-injecting database/sql driver on the same SQLite file).
 func VerifNewBridgeSyncWithDB(dbPath, name string, originNetwork uint32, database *sql.DB) (*BridgeSync, error) {
-	if err := migrations.RunMigrations(dbPath); err != nil {
-		return nil, err
+	if !db.VerifMigrated(database) {
+		if err := migrations.RunMigrations(dbPath); err != nil {
+			return nil, err
+		}
 	}
 	p := &processor{
 		db:       database,
